@@ -18,6 +18,7 @@ type client struct {
 	path   string
 	closed func() bool
 	inst   any // *path it attached to
+	leave  func()
 }
 
 // ReloadHistoryBody runs one reload history sequentially (each step settles before the next) and checks the
@@ -49,11 +50,15 @@ func ReloadHistoryBody(confs []*conf.Conf, labels []string) func() {
 				if err != nil {
 					continue
 				}
-				clients = append(clients, &client{id: pub.ID, path: name, closed: pub.Closed, inst: core.VerifSnapPath(res.Path).Ptr})
+				pth := res.Path
+				clients = append(clients, &client{id: pub.ID, path: name, closed: pub.Closed, inst: core.VerifSnapPath(res.Path).Ptr,
+					leave: func() { pth.RemovePublisher(defs.PathRemovePublisherReq{Author: pub}) }})
 				r := &Rdr{ID: fmt.Sprintf("R%s%d", name, step)}
 				rres, _, err := pm.Read(r, name, m, f)
 				if err == nil {
-					clients = append(clients, &client{id: r.ID, path: name, closed: r.Closed, inst: core.VerifSnapPath(rres.Path).Ptr})
+					rpth := rres.Path
+					clients = append(clients, &client{id: r.ID, path: name, closed: r.Closed, inst: core.VerifSnapPath(rres.Path).Ptr,
+						leave: func() { rpth.RemoveReader(defs.PathRemoveReaderReq{Author: r}) }})
 				}
 			}
 		}
@@ -77,38 +82,7 @@ func ReloadHistoryBody(confs []*conf.Conf, labels []string) func() {
 			viol := func(key, format string, a ...any) {
 				vsched.Log("VIOL %s :: after %s -> %s: %s", key, strings.Join(labels[:step], " -> "), labels[step], fmt.Sprintf(format, a...))
 			}
-			// 1. every static configuration has a live path
-			for name, pc := range newPaths {
-				if pc.Regexp == nil {
-					if _, ok := after[name]; !ok {
-						viol("static-conf-without-path", "static configuration %q has no live path", name)
-					}
-				}
-			}
-			// 2./3. every live path resolves and runs with exactly what resolution selects
-			names := make([]string, 0, len(after))
-			for n := range after {
-				names = append(names, n)
-			}
-			sort.Strings(names)
-			for _, n := range names {
-				s := after[n]
-				rc, rm, err := conf.FindPathConf(newPaths, n)
-				if err != nil {
-					viol("live-path-does-not-resolve", "path %q is alive but its name resolves to no configuration", n)
-					continue
-				}
-				if s.Conf != rc && !s.Conf.Equal(rc) {
-					viol("path-runs-with-other-conf", "path %q runs with configuration %q (%s) but its name resolves to %q (%s)", n, s.Conf.Name, confDigest(s.Conf), rc.Name, confDigest(rc))
-				}
-				if s.ConfName != rc.Name {
-					viol("path-confname-stale", "path %q is accounted to configuration %q but resolves to %q", n, s.ConfName, rc.Name)
-				}
-				// capture groups = matches[1:] (matches[0] is the name itself): nil and [name] are the same
-				if (len(s.Matches) > 1 || len(rm) > 1) && !reflect.DeepEqual(s.Matches, rm) {
-					viol("path-capture-groups-stale", "path %q runs with capture groups %q but resolution selects %q", n, s.Matches, rm)
-				}
-			}
+			checkLive(after, newPaths, viol)
 			// 4. keep vs recreate
 			for n, b := range before {
 				a, alive := after[n]
@@ -153,8 +127,65 @@ func ReloadHistoryBody(confs []*conf.Conf, labels []string) func() {
 			attach(step)
 			vsched.WaitQuiet()
 		}
+		// every client leaves (readers first): the clauses about static entries and live paths still hold,
+		// whatever each path was created from
+		for pass := 0; pass < 2; pass++ {
+			for _, c := range clients {
+				if strings.HasPrefix(c.id, "R") == (pass == 0) && !c.closed() {
+					c.leave()
+				}
+			}
+			vsched.WaitQuiet()
+		}
+		vsched.WaitIdle()
+		if len(confs) > 1 {
+			final := map[string]core.VerifPathSnap{}
+			for _, s := range pm.Snap() {
+				final[s.Name] = s
+			}
+			vsched.Log("clients left %s", SnapString(pm))
+			checkLive(final, confs[len(confs)-1].Paths, func(key, format string, a ...any) {
+				vsched.Log("VIOL %s-after-clients-left :: after %s and every client leaving: %s", key, strings.Join(labels, " -> "), fmt.Sprintf(format, a...))
+			})
+		}
 		pm.Close()
 		vsched.Log("end")
+	}
+}
+
+// checkLive: clauses 1-3 of the statement on one snapshot.
+func checkLive(after map[string]core.VerifPathSnap, newPaths map[string]*conf.Path, viol func(key, format string, a ...any)) {
+	// 1. every static configuration has a live path
+	for name, pc := range newPaths {
+		if pc.Regexp == nil {
+			if _, ok := after[name]; !ok {
+				viol("static-conf-without-path", "static configuration %q has no live path", name)
+			}
+		}
+	}
+	// 2./3. every live path resolves and runs with exactly what resolution selects
+	names := make([]string, 0, len(after))
+	for n := range after {
+		names = append(names, n)
+	}
+	sort.Strings(names)
+	for _, n := range names {
+		s := after[n]
+		rc, rm, err := conf.FindPathConf(newPaths, n)
+		if err != nil {
+			viol("live-path-does-not-resolve", "path %q is alive but its name resolves to no configuration", n)
+			continue
+		}
+		if s.Conf != rc && !s.Conf.Equal(rc) {
+			viol("path-runs-with-other-conf", "path %q runs with configuration %q (%s) but its name resolves to %q (%s)", n, s.Conf.Name, confDigest(s.Conf), rc.Name, confDigest(rc))
+		}
+		if s.ConfName != rc.Name {
+			viol("path-confname-stale", "path %q is accounted to configuration %q but resolves to %q", n, s.ConfName, rc.Name)
+		}
+		// capture groups = matches[1:] (matches[0] is the name itself): nil and [name] are the same
+		if (len(s.Matches) > 1 || len(rm) > 1) && !reflect.DeepEqual(s.Matches, rm) {
+			viol("path-capture-groups-stale", "path %q runs with capture groups %q but resolution selects %q", n, s.Matches, rm)
+		}
 	}
 }
 
